@@ -10,7 +10,7 @@
    covered by the differential run only (docs/C03.md). *)
 From Coq Require Import String List Bool.
 From CBI Require Import Lib.Data Lib.Res Model.C03tok Model.C03 Model.C03run Spec.C03.
-From CBI Require Import Proofs.C03w Proofs.C03d.
+From CBI Require Import Proofs.C03w Proofs.C03d Proofs.C03o Proofs.C03s Proofs.C03j.
 From CBI Require Gen.C03_tables.
 Import ListNotations.
 Local Open Scope string_scope.
@@ -40,6 +40,34 @@ Proof.
   - exact default_is_one.
 Qed.
 Print Assumptions C03_cmdline_define.
+
+(* ------------------------------------------------------------------ *)
+(* object-like macros without ##                                       *)
+(* ------------------------------------------------------------------ *)
+(* For EVERY table of object-like macros (any number below the backstop, any
+   direct or mutual recursion) whose replacement lists contain no ##, no
+   `defined` and no __VA_ARGS__, built by `#define NAME body` lines, and every
+   source token list of the same kind:
+     - expansion terminates: there is n such that every fuel >= n suffices
+       (the stack never reaches max_level; each push disables one more name);
+     - the result is, token for token, the one Prosser's algorithm yields.
+   Missing for the full statement: function-like macros, # and ##, `defined`
+   (covered by the differential run and refuted in the classes below). *)
+Theorem C03_objlike :
+  forall (ds : odefs) (input : list tok),
+    wf_defs ds = true -> forallb okd input = true ->
+    S (List.length ds) < Gen.C03_tables.max_level ->
+    exists tb, build_table 0 (map define_line ds) [] = inl tb /\
+    exists n, forall fuel, n <= fuel ->
+      exists out,
+        expand cur_lead cur_cat_fix cur_str_white cur_base cur_rescan cur_va_fix
+               Gen.C03_tables.max_level tb fuel input = Ok out /\
+        run_spec fuel (stable_of_defs ds) (map btok_of input) = Ok (map sp out).
+Proof.
+  intros ds input Hwf Hin Hlev. exists (mtable ds). split; [exact (build_objlike ds Hwf)|].
+  exact (objlike_main ds Hwf _ _ _ _ _ input Hin Hlev).
+Qed.
+Print Assumptions C03_objlike.
 
 (* ------------------------------------------------------------------ *)
 (* full conformance is refuted: one closed witness per finding class    *)
@@ -101,6 +129,18 @@ Print Assumptions C03_repaired_defects_refuted_and_now_conform.
 (* ------------------------------------------------------------------ *)
 (* non-vacuity                                                         *)
 (* ------------------------------------------------------------------ *)
+(* mutual recursion: A -> B + A, B -> A 1 ; the hypotheses of C03_objlike hold and the expansion is non-trivial *)
+Example C03_nonvacuous_objlike :
+  let ds := [("A", [tI "B"; tOw "+"; tIw "A"]); ("B", [tI "A"; tNw "1"])] in
+  let input := [tI "A"; tIw "B"] in
+  wf_defs ds = true /\ forallb okd input = true /\ S (List.length ds) < Gen.C03_tables.max_level /\
+  run_spec 50 (stable_of_defs ds) (map btok_of input)
+  = Ok [(KId, "A"); (KNum, "1"); (KOp, "+"); (KId, "A"); (KId, "B"); (KOp, "+"); (KId, "A"); (KNum, "1")].
+Proof.
+  cbv zeta. split; [vm_compute; reflexivity|]. split; [vm_compute; reflexivity|].
+  split; [apply PeanoNat.Nat.ltb_lt; vm_compute; reflexivity|vm_compute; reflexivity].
+Qed.
+
 (* a variadic head with three parameters satisfies the hypothesis of C03_cmdline_define,
    and the macro it builds is a real one *)
 Example C03_nonvacuous_cmdline :
